@@ -145,11 +145,9 @@ Proof.
       split; [intros k x; cbn [ph_data]; apply nlookup_app_some|].
       unfold obj_lvs. cbn [ph_lvs]. rewrite nlookup_app_none by (apply fresh_none; [exact F|lia]).
       cbn [nlookup]. rewrite N.eqb_refl. exact LL. }
-  destruct (d_keys d).
-  - destruct (N.eqb (d_kind d) 1); injection E as <- <-.
-    + apply (G [mkslv [] (ph_nextd h) 0%Z] [(ph_nextd h, mkdatum (zero_dval (d_type d)) 0%Z)] (N.succ (ph_nextd h))). cbn. lia.
-    + pose proof (G [] [] (ph_nextd h)) as G0. rewrite app_nil_r in G0. apply G0. cbn. lia.
-  - injection E as <- <-. pose proof (G [] [] (ph_nextd h)) as G0. rewrite app_nil_r in G0. apply G0. cbn. lia.
+  destruct (prealloc d); injection E as <- <-.
+  - apply (G [mkslv [] (ph_nextd h) 0%Z] [(ph_nextd h, mkdatum (zero_dval (d_type d)) 0%Z)] (N.succ (ph_nextd h))). cbn. lia.
+  - pose proof (G [] [] (ph_nextd h)) as G0. rewrite app_nil_r in G0. apply G0. cbn. lia.
 Qed.
 
 Lemma alloc_objs_spec : forall ds h h1 objs,
@@ -173,7 +171,7 @@ Proof.
         unfold obj_lvs in *. destruct (nlookup o (ph_lvs ha)) as [lv|] eqn:Q.
         -- rewrite (Lb _ _ Q). exact Ln.
         -- exfalso. revert Q. unfold alloc_obj in A.
-           destruct (d_keys d); [destruct (N.eqb (d_kind d) 1)|]; injection A as <- <-; cbn [ph_lvs];
+           destruct (prealloc d); injection A as <- <-; cbn [ph_lvs];
              rewrite nlookup_app_none by (apply fresh_none; [exact F|lia]); cbn [nlookup]; rewrite N.eqb_refl; discriminate.
       * destruct (Ob _ _ I) as (R & LL). split; [lia|exact LL].
     + cbn [map fst]. constructor; [|exact ND]. intros I. apply in_map_iff in I. destruct I as ([o2 d2] & E2 & I).
